@@ -1463,12 +1463,25 @@ impl VisitMut for Norm {
                         }
                     }
                     "then_some" if mc.args.len() == 1 => {
-                        // N7e: B.then_some(X) => if B { Some(X) } else { None }
+                        // N7e: B.then_some(X) => { let b = B; let x = X; if b { Some(x) } else { None } } (X is evaluated in both cases, after B)
                         let b = &mc.receiver;
                         let x = &mc.args[0];
-                        let ne: Expr = parse_quote!(if #b { Some(#x) } else { None });
+                        // (fixed names in their own block: the shared temporary counter is not advanced)
+                        let bb = Ident::new("__hq_ts_b", Span::call_site());
+                        let xx = Ident::new("__hq_ts_x", Span::call_site());
+                        let ne: Expr = parse_quote!({ let #bb = #b; let #xx = #x; if #bb { Some(#xx) } else { None } });
                         *e = ne;
                         self.log("N7e-then_some", sp);
+                    }
+                    "then" if mc.args.len() == 1 && matches!(&mc.args[0], Expr::Closure(c) if c.inputs.is_empty() && !body_has_return(&c.body)) => {
+                        // N7e2: B.then(|| X) => if B { Some(X) } else { None } (X stays lazily evaluated)
+                        if let Expr::Closure(c) = &mc.args[0] {
+                            let b = &mc.receiver;
+                            let x = &c.body;
+                            let ne: Expr = parse_quote!(if #b { Some(#x) } else { None });
+                            *e = ne;
+                            self.log("N7e2-then-closure", sp);
+                        }
                     }
                     "retain" | "retain_mut" if mc.args.len() == 1 => {
                         // N8: V.retain(|p| B) / V.retain_mut(|p| B) => index loop with the same visiting order and the same survivors
